@@ -287,9 +287,30 @@ def reverse_batch(asm, acc, lo, hi):
             else '%d bytes instead of %d' % (len(o.out), len(want))), case, {})
 
 
+def warm_up(asm, acc):
+    """history: before a shard does its own work, one legal instruction of every RVC mnemonic has been encoded in this interpreter, once
+    by a direct call and once through text (the first legal halfword of every mnemonic, and the last) - what one encoder was asked to do
+    says nothing about what another accepts afterwards"""
+    first, last = {}, {}
+    for h in range(0, 65536, 1):
+        k, i = rv.decode16(h)
+        if k == 'legal':
+            first.setdefault(i['name'], i)
+            last[i['name']] = i
+    for i in list(first.values()) + list(last.values()):
+        try:
+            asm.INSTRUCTIONS[i['name']](*canon_args(i))
+            asm.assemble(canon_text(i) + '\n')
+            acc['ctr']['warm_up_instructions'] += 1
+        except Exception:       # noqa - history, not the subject: the shard's own cases judge
+            acc['ctr']['warm_up_refused'] += 1
+    core.see(acc, 'warm_up_mnemonics', len(first))
+
+
 def run_shard(sh, deadline):
     asm = core.load_asm()
     acc = core.new_acc()
+    warm_up(asm, acc)
     if sh['kind'] == 'label':
         if sh['lo'] == 0:
             sp_base_cases(asm, acc)
